@@ -34,7 +34,10 @@ func c08History(c *core.Ctx, idx int) (*hist.History, []*hist.Table) {
 	o.NoJSON = idx%4 != 0
 	o.Types = []byte{ev.TTimestamp, ev.TTimestamp2, ev.TTimestamp2, ev.TVarchar, ev.TBlob, ev.TBlob, ev.TLong, ev.TNewDecimal,
 		ev.TDateTime2, ev.TTime2, ev.TString, ev.TBit, ev.TSet, ev.TYear, ev.TDate, ev.TTime, ev.TDateTime, ev.TGeometry, ev.TJSON, ev.TDouble}
-	switch idx % 5 {
+	switch idx % 6 {
+	case 5:
+		o.BlobLens = []int{258000, 259000, 261000, 262100, 262143, 262144}
+		o.MaxRows, o.MaxStmts = 1, 2
 	case 0:
 		o.BlobLens = []int{4000, 4050, 4085, 4090, 4096, 4100}
 	case 1:
